@@ -5,7 +5,7 @@
 #define MAXOPS 40
 #define MAXOPS_THOROUGH 64
 
-static const char *const class_names[] = { C2_COMMON_CLASS_NAMES, NULL };
+static const char *const class_names[] = { C2_COMMON_CLASS_NAMES, C2_FAULT_CLASS_NAMES, NULL };
 
 /* weights: alloc 3, dup 3, splice 3, write 5, free 2, free_sharers 3, split 2, insert 2, append 2,
  * delete 2, truncate 2, resize 1, prepend 1, copy 1 */
@@ -27,6 +27,8 @@ static int run(const uint8_t *tp_, size_t len, struct vp_report *rep, unsigned f
     int align_off = align ? (int)(tp_u8(&c->t) % 5) - 2 : 0;
     if (c2_fix_init(c, depth, prep, app, align, align_off) != 0) return vp_internal(rep, "fixture init");
     R("C02/cow_block config: pool_depth=%d prepend=%d append=%d align=%d align_offset=%d\n", depth, prep, app, align, align_off);
+    c->faultmode = cfg >= 216;          /* (216..255 alias configurations 0..39) */
+    if (c->faultmode) R("  [allocation faults]\n");
     c->hash = vp_hash_mix(c->hash, cfg * 8 + align_off + 2);
     if (depth) CL(CL_POOL);
     if (align) CL(CL_ALIGN);
@@ -34,11 +36,14 @@ static int run(const uint8_t *tp_, size_t len, struct vp_report *rep, unsigned f
     int nops = 0;
     while (!tp_done(&c->t) && nops < maxops && !c->ret) {
         nops++;
-        unsigned code = optab[tp_u8(&c->t) % 32];
+        uint8_t opbyte = tp_u8(&c->t);
+        unsigned code = optab[opbyte % 32];
         if (c2_nlive(c) == 0) code = 0;
         c->hash = vp_hash_mix(c->hash, code);
         char what[160] = "";
+        c2_fault_begin(c, opbyte);
         int hi = c2_block_op(c, code, what, sizeof what);
+        hi = c2_fault_end(c, hi);
         if (hi >= 0 && !c->ret) c2_check_all(c, what);
     }
     for (int i = 0; i < C2_MAXH; i++) c2_release(c, i);
@@ -47,6 +52,7 @@ static int run(const uint8_t *tp_, size_t len, struct vp_report *rep, unsigned f
 
     rep->case_hash = c->hash;
     rep->classes = c->cl;
+    C2_FAULT_CLASSES(rep, c, 14);
     rep->nontrivial = (c->cl & (1u << CL_REFUSED_SHARED)) && (c->cl & (1u << CL_GRANTED_AFTER_FREE)) && (c->cl & (1u << CL_MULTISEG_SHARING));
     return c->ret;
 }
